@@ -15,6 +15,7 @@ package main
 //	announcer-not-recorded      an announcement beyond the cap for an item with an active pull is queued (with the pull's time)
 //	duplicate-deferred-request  never more deferred requests to (peer,hash) than deferred announcements of (peer,hash)
 //	active-pull-not-cleared     an arrival clears the hash's registered pull
+//	pull-wrong-type             every pull request (immediate or relayed) carries the entry type of the item's holder
 //	pending-unbounded / -unsorted / relay-mismatch / unexpected-output
 import (
 	"fmt"
@@ -30,6 +31,7 @@ type c20fail struct {
 type ph struct{ p, h int }
 
 type c20oracle struct {
+	typ        int // the entry type of this holder: every pull request for its items must carry it
 	delay      int64
 	cap        int
 	maxPending int
@@ -43,8 +45,8 @@ type c20oracle struct {
 	relay      []ph       // issued by the tracker, not yet relayed by the manager
 }
 
-func newOracle(delay int64, cap, maxPending int) *c20oracle {
-	return &c20oracle{delay: delay, cap: cap, maxPending: maxPending, stored: map[int]bool{}, counter: map[int]bool{},
+func newOracle(typ int, delay int64, cap, maxPending int) *c20oracle {
+	return &c20oracle{typ: typ, delay: delay, cap: cap, maxPending: maxPending, stored: map[int]bool{}, counter: map[int]bool{},
 		imm: map[int]int{}, lastReq: map[int]int64{}, anyReq: map[int]bool{}, deferred: map[ph]int{}, decs: map[ph]int{}}
 }
 
@@ -56,9 +58,9 @@ func pendCount(es []pushpull.VerifEntry) map[ph]int {
 	return m
 }
 
-func (o *c20oracle) observe(i int, e c20ev, out []c20out, before, after c20snap, r *rig) *c20fail {
+func (o *c20oracle) observe(i int, e c20ev, line string, out []c20out, before, after c20snap) *c20fail {
 	fail := func(sig, f string, a ...interface{}) *c20fail {
-		return &c20fail{"C20:" + sig, fmt.Sprintf("event %d (%s) at t=%d ms: ", i, e.line(), before.Now) + fmt.Sprintf(f, a...)}
+		return &c20fail{"C20:" + sig, fmt.Sprintf("event %d (%s) at t=%d ms: ", i, line, before.Now) + fmt.Sprintf(f, a...)}
 	}
 	now := after.Now
 	pb, pa := pendCount(before.Pending), pendCount(after.Pending)
@@ -71,6 +73,9 @@ func (o *c20oracle) observe(i int, e c20ev, out []c20out, before, after c20snap,
 	// outputs allowed for this kind of event
 	want := map[string]string{"ann": "imm", "loop": "dec", "dlv": "fwd"}[e.K]
 	for _, x := range out {
+		if x.Ty != o.typ {
+			set(fail("pull-wrong-type", "%s pull request to peer %d for hash %d carries push type %d, the item belongs to the holder of type %d (the announcer is asked for an item it never announced)", x.Kind, x.P, x.H, x.Ty, o.typ))
+		}
 		if x.Kind != want || x.T != now {
 			set(fail("unexpected-output", "output %v", x))
 		}
@@ -103,7 +108,7 @@ func (o *c20oracle) observe(i int, e c20ev, out []c20out, before, after c20snap,
 		if !o.counter[e.H] {
 			o.counter[e.H] = true
 			o.imm[e.H] = 0
-			if len(out) != 1 || out[0] != (c20out{"imm", e.P, e.H, now}) {
+			if len(out) != 1 || out[0] != (c20out{"imm", o.typ, e.P, e.H, now}) {
 				set(fail("first-announcer-not-immediate", "first announcement of an item the node lacks; outputs %v", out))
 			}
 		}
